@@ -61,7 +61,26 @@ pub fn run_to_client(sim: &Sim, _idx: u64) {
     script.headers.extend(wire_entries(sim, &head_md));
     let mut trailers: Vec<(String, Vec<u8>)> = vec![("grpc-status".into(), if fail { b"9".to_vec() } else { b"0".to_vec() })];
     if fail {
-        trailers.push(("grpc-message".into(), b"nope".to_vec()));
+        // the status fields next to the metadata may be absent, well-formed, or undecodable (a message
+        // that is not UTF-8 after percent-decoding, details that are not base64): the status then
+        // degrades (C04), the metadata attached to it must arrive all the same
+        match sim.weighted(&[1, 4, 2, 2]) {
+            0 => {}
+            1 => trailers.push(("grpc-message".into(), b"nope".to_vec())),
+            2 => trailers.push(("grpc-message".into(), b"caf%C3%A9%20%E2%9C%93".to_vec())),
+            _ => {
+                trailers.push(("grpc-message".into(), sim.pick(&["bad%FFmessage", "%C3", "a%80b"]).as_bytes().to_vec()));
+                sim.probe("error-status-with-undecodable-message-and-metadata");
+            }
+        }
+        match sim.weighted(&[4, 1, 1]) {
+            0 => {}
+            1 => trailers.push(("grpc-status-details-bin".into(), indep::b64_encode(&sim.bytes(7), sim.chance(1, 2)).into_bytes())),
+            _ => {
+                trailers.push(("grpc-status-details-bin".into(), b"!!!notbase64".to_vec()));
+                sim.probe("error-status-with-undecodable-details-and-metadata");
+            }
+        }
     }
     trailers.extend(wire_entries(sim, &trail_md));
     let trailers_only = fail && sim.chance(1, 3);
